@@ -357,6 +357,9 @@ def _install_attr_tracing():
     orig_getattr = core._PATCH_REGISTRATIONS.get(getattr)
 
     def _plain(obj):
+        if isinstance(obj, super):
+            # getattr(super(Cls, self), name): the property found through the MRO must run traced as well
+            return getattr(obj, "__thisclass__", type(None)).__module__.startswith(_TRACED_MODULE_PREFIXES)
         return not isinstance(obj, (core.CrossHairValue, type)) and type(
             obj
         ).__module__.startswith(_TRACED_MODULE_PREFIXES)
